@@ -43,7 +43,12 @@ int vf_main(void) {
     vf_cur_thread = 1;
 #if FOREIGN_CTX
     r = m_ctx_register("other", M_CTX_PERSIST, NULL); VF_CHECK(r == 0, "a second thread registers its own context");
-    r = m_mod_register("x", &X, &vf_hook, 0, NULL); VF_CHECK(r == 0 && X != NULL, "module in the other context");
+#ifdef SAMENAME
+    /* the other context has a module carrying the same NAME as M: names are per context, identity is not by name */
+    r = m_mod_register(m_mod_name(M), &X, &vf_hook, 0, NULL);
+#else
+    r = m_mod_register("x", &X, &vf_hook, 0, NULL);
+#endif VF_CHECK(r == 0 && X != NULL, "module in the other context");
     vf_mods[2] = X;
     r = m_mod_start(X); VF_CHECK(r == 0, "start X");
 #else
